@@ -4,6 +4,7 @@ import json, sys
 pid = sys.argv[1]
 tag = sys.argv[2] if len(sys.argv) > 2 else pid
 focus = sys.argv[3] if len(sys.argv) > 3 else None
+hint = sys.argv[4] if len(sys.argv) > 4 else None
 d = next(json.loads(l) for l in open('/verif/properties.jsonl') if json.loads(l)['id'] == pid)
 print(f"""You are helping to evaluate a verification harness for the open-source project lakiw/pcfg_cracker (a PCFG password-guess generator: a trainer that segments leaked passwords into a probabilistic grammar, a guesser that enumerates guesses in probability order, a scorer, PRINCE-LING and edit_rules). You get your OWN scratch git worktree of the repository at /tmp/seedwt/{tag} . Work ONLY inside /tmp/seedwt/{tag} and /tmp/seedout/{tag} . Never touch /repo or /verif and do not read anything under /verif.
 
@@ -21,4 +22,5 @@ Deliver, in /tmp/seedout/{tag}/ :
   demo.py,
   notes.md    = 5-15 lines: what the change is, why it breaks the property, exactly what is needed for it to manifest, and the commands you ran with their results (tests pass, demo fails with / passes without).
 {('FOCUS: put your change in (or mainly in) ' + focus + ' - think of a failure mode that only shows after a particular history of operations or for a particular shape of input, not one that every run hits.') if focus else ''}
+{('HINT: ' + hint) if hint else ''}
 Tips: python is /venv/bin/python (3.12). Source files mostly use CRLF line endings - preserve them (edit carefully so that `git diff` shows only your lines). Do not use the network. Finish by printing the content of notes.md as your final answer.""")
